@@ -101,6 +101,10 @@ impl DataLog {
             .map(|data| &data.waiters)
     }
 
+    pub fn filter_idx(&self, filter: &str) -> Option<FilterIdx> {
+        self.filter_indexes.get(filter).copied()
+    }
+
     pub fn remove_waiters_for_id(
         &mut self,
         id: ConnectionId,
